@@ -14,7 +14,9 @@ from ..hub import T1, T2, ALL, HubConfig
 
 # R asks for A's id (refused while A is connected); X asks for an id outside the user range
 # P and Q are two instances of one id (both allow multiple instances)
-IDS = {"A": (11, 0), "B": (12, 0), "C": (0, 0), "R": (11, 0), "X": (150, 0), "G": (60, 1), "H": (61, 1), "M": (90, 0), "P": (70, 0), "Q": (70, 0)}
+# J asks for logger G's id and declares itself a logger too (refused while G is connected); K is a logger that connects with CONNECT alone
+IDS = {"A": (11, 0), "B": (12, 0), "C": (0, 0), "R": (11, 0), "X": (150, 0), "G": (60, 1), "H": (61, 1), "M": (90, 0), "P": (70, 0), "Q": (70, 0),
+       "J": (60, 1), "K": (62, 1)}
 
 
 def _ops(cfg: HubConfig, info) -> List[Tuple[str, List[List]]]:
@@ -29,9 +31,9 @@ def _ops(cfg: HubConfig, info) -> List[Tuple[str, List[List]]]:
         if s not in present:
             if not churn:
                 continue
-            if s in ("A", "G", "H", "P", "Q"):
+            if s in ("A", "G", "H", "P", "Q", "J"):
                 out.append((f"connect21({s})", a.connect_v2(s, name=s.encode(), allow_multiple=int(s in "PQ"))))
-            elif s in ("B", "R", "X"):
+            elif s in ("B", "R", "X", "K"):
                 out.append((f"connect1({s})", a.connect_v1(s)))
             else:  # C: CONNECT_V2 alone, dynamic id
                 out.append((f"connect2({s})", [["conn", s], hub.ev_send(s, hub.frame(
@@ -113,6 +115,8 @@ def configs(tier: str) -> List[Any]:
             builder(tier=tier, subscribers="B", loggers="GH", pre="BGH", churn="GH", ctl="B", pairs="all"),
             # the sender (or a logger) is reported not writable in the very round its control frame is served
             builder(tier=tier, subscribers="AB", loggers="G", pre="ABG", ctl="AB", pairs="none", nw_ops=True),
+            # a second "logger" asking for the id of the connected logger (refused), a logger that connects with CONNECT alone
+            builder(tier=tier, subscribers="BJ", loggers="GK", pre="BG", churn="JK", ctl="B", pairs="none"),
             # two instances of one module id: the acknowledgement goes to the sending connection only
             builder(tier=tier, subscribers="PQ", loggers="G", pre="PQG", ctl="PQ", churn="Q", pairs="none"),
         ]
